@@ -98,6 +98,18 @@ def make_cases(ctx, n_schemas, depth, plain_only=False, zoo_rate=0.2, opts=None)
             continue
         c.unmodelled = None
         cases.append(c)
+    if not plain_only:
+        # every member of the hostile zoo at every position where the substitutor converts a native value
+        grid = [("schema.list", lambda z: [z]), ("schema.dict", lambda z: {"k": z}), ("schema.any", lambda z: z),
+                ("schema.dict({...: ...})", lambda z: {"k": z}), ("schema.list([..., schema.int, ...])", lambda z: [z, 1]),
+                ("schema.list([schema.int, ...])", lambda z: [1, z]), ("schema.list([..., schema.int])", lambda z: [z, 1]),
+                ("schema.dict({'a': schema.any})", lambda z: {"a": z}), ("schema.list(schema.any)", lambda z: [1, z])]
+        for zs, z in gen.ZOO:
+            for ssrc, mk in (grid if ctx.thorough() else r.sample(grid, 4)):
+                c = SCase()
+                c.ssrc, c.schema, c.value, c.origin = ssrc, gen.build(ssrc), mk(z), "zoo-grid"
+                c.unmodelled = None
+                cases.append(c)
     for _ in range(n_schemas):
         ssrc, s = gen.gen_schema(r, r.randint(0, depth), opts)
         vals = []
